@@ -3,11 +3,15 @@ use crate::reg::Reg;
 
 #[cfg(feature = "c01")] pub mod c01;
 #[cfg(feature = "c06")] pub mod c06;
+#[cfg(feature = "c04")] pub mod c04;
+#[cfg(feature = "c07")] pub mod c07;
 
 pub fn register(prop: &str, reg: &mut Reg) {
     match prop {
         #[cfg(feature = "c01")] "C01" => c01::register(reg),
         #[cfg(feature = "c06")] "C06" => c06::register(reg),
+        #[cfg(feature = "c04")] "C04" => c04::register(reg),
+        #[cfg(feature = "c07")] "C07" => c07::register(reg),
         _ => { eprintln!("symx: property {} not available in this build", prop); std::process::exit(2); }
     }
 }
